@@ -30,6 +30,8 @@ type fieldSpec struct {
 	defBool   bool
 	discValue uint16 // 0xffff = none
 	annotated bool
+	elemTyp   uint16 // list fields: Type.which of the element type
+	targetID  uint64 // struct fields and lists of structs: the node id of the struct type
 }
 
 type nodeSpec struct {
@@ -134,6 +136,16 @@ func main() {
 					sp.offset = fs.Uint32(4)
 					t := substruct(fs, 2)
 					sp.typ = t.Uint16(0)
+					switch sp.typ {
+					case 16:
+						sp.targetID = t.Uint64(8)
+					case 14:
+						et := substruct(t, 0)
+						sp.elemTyp = et.Uint16(0)
+						if sp.elemTyp == 16 {
+							sp.targetID = et.Uint64(8)
+						}
+					}
 					sp.defBits, sp.defBool = valueBits(substruct(fs, 3), sp.typ)
 				}
 				ns.fields = append(ns.fields, sp)
@@ -297,9 +309,35 @@ func main() {
 					case f.typ == 14 && methods[tn]["New"+title(f.name)] && paramType[tn+".New"+title(f.name)] == "int32":
 						call = fmt.Sprintf("_, err := x.New%s(1)", title(f.name))
 					}
+					wantD, wantP := -1, -1 // expected size of the allocated struct / list element, if known
+					switch {
+					case f.typ == 16 && nodes[f.targetID] != nil:
+						wantD, wantP = 8*int(nodes[f.targetID].dataWords), int(nodes[f.targetID].ptrs)
+					case f.typ == 14:
+						switch f.elemTyp {
+						case 2, 6:
+							wantD, wantP = 1, 0
+						case 3, 7, 15:
+							wantD, wantP = 2, 0
+						case 4, 8, 10:
+							wantD, wantP = 4, 0
+						case 5, 9, 11:
+							wantD, wantP = 8, 0
+						case 12, 13, 14, 17, 18:
+							wantD, wantP = 0, 1
+						case 16:
+							if nodes[f.targetID] != nil {
+								wantD, wantP = 8*int(nodes[f.targetID].dataWords), int(nodes[f.targetID].ptrs)
+							}
+						}
+					}
 					if call != "" {
 						fmt.Fprintf(&out, "func VH_TV_%s_%s__fill() {\n\ts := vTVStruct(%d, %d)\n\tvTVScramble(s, %d, %s)\n\tx := %s{Struct: s}\n\tvReach(\"entry\")\n\t%s\n\tvAssert(err == nil, \"C15.tv.pointer-setter-succeeds\")\n\tif err != nil {\n\t\treturn\n\t}\n\tvTVPtrPost(s, %d, %d, %s)\n}\n\n", tn, G, D, P, 2*ns.discOffset, disc, tn, call, f.offset, 2*ns.discOffset, disc)
 						emitted++
+						if wantD >= 0 {
+							fmt.Fprintf(&out, "func VH_TV_%s_%s__size() {\n\ts := vTVStruct(%d, %d)\n\tx := %s{Struct: s}\n\tvReach(\"entry\")\n\t%s\n\tif err != nil {\n\t\treturn\n\t}\n\tvTVSizePost(s, %d, %v, %d, %d)\n}\n\n", tn, G, D, P, tn, call, f.offset, f.typ == 14, wantD, wantP)
+							emitted++
+						}
 					}
 				}
 				if methods[tn][H] {
